@@ -559,7 +559,7 @@ class Gen:
         out = []
         if not in_fn:
             return out
-        p = 0.55 if self.flavour == "c07" else 0.15
+        p = 0.55 if self.flavour == "c07" else 0.0
         if r.random() < p:
             names = r.sample(POOL, r.randint(1, 3))
             out.append(("nonlocal" if r.random() < 0.7 else "global", names))
